@@ -42,6 +42,11 @@ SCENARIOS = {
     'late_overlap': dict(callers=[[('comm', 1), ('comm', 2)], [('comm', 3)]], behaviour={1: ('late', 3.0)}),
     'silent': dict(callers=[[('comm', 1)], [('comm', 2)], [M((3, 0.2), (4, 0))]], behaviour={1: ('silent',), 3: ('silent',)}),
     'trickle': dict(callers=[[('comm', 1)], [('comm', 2)]], behaviour={1: ('trickle',)}, horizon=25),
+    # terminators of several bytes, cut by the chunking of the transport at every position
+    'eol2_pairs': dict(eol='\r\n', callers=[[('comm', 1), M((2, 0.5), (3, 0))], [('comm', 4), ('comm', 5)]],
+                       behaviour={1: ('normal', 4), 3: ('normal', 2), 5: ('normal', 4)}),
+    'eol3_pairs': dict(eol=';;\n', callers=[[('comm', 1), ('comm', 2)], [M((3, 0), (4, 0.3))]],
+                       behaviour={1: ('normal', 5), 2: ('normal', 2), 4: ('normal', 5)}),
     'bytes_pairs': dict(bytes=True, callers=[[M((1, 0), (2, 0))], [('comm', 3), ('comm', 4)]], behaviour={2: ('normal', 2)}),
     'bytes_delays': dict(bytes=True, callers=[[M((1, 1.0), (2, 2.0), (3, 0.5))], [('comm', 4)]]),
     'string_delays': dict(callers=[[M((1, 1.0), (2, 2.0), (3, 0.5))], [('comm', 4)]]),
@@ -147,7 +152,7 @@ def alpha(r, sc):
         elif ev == 'dev_recv':
             tr.append({'ev': 'drecv', 'g': e['gid'], 't': t})
         elif ev == 'host_send':
-            d = e['data'].strip()
+            d = e['data'].strip().rstrip(';')      # (terminators used by the scenarios: \n, \r\n, ;;\n)
             if d[:1] == 'C' and d[1:].isdigit():
                 tr.append({'ev': 'hsend', 'g': int(d[1:]), 't': t})
         elif ev == 'unsolicited':
